@@ -700,6 +700,22 @@ def add_struct_tag(prj, rng, type_name, fields, tag_name, dims=()):
     return t, tag
 
 
+def add_predefined_tag(prj, rng, type_name, tag_name, bare=True):
+    """a TIMER-shaped predefined type (status word CTL / Control that is not user-visible, EN / TT / DN aliasing its top bits, PRE and
+    ACC), template id in the predefined range, on firmware >= 32 in the bare-name template form when `bare`; and one tag of it"""
+    pb = _builder_for(prj, rng)
+    t = DType(type_name, "struct")
+    cname = rng.choice(["CTL", "Control"])
+    t.members = [Member(cname, ATOM_TYPES["DINT"], 0), Member("PRE", ATOM_TYPES["DINT"], 4), Member("ACC", ATOM_TYPES["DINT"], 8),
+                 Member("EN", ATOM_TYPES["BOOL"], 3, bit=7), Member("TT", ATOM_TYPES["BOOL"], 3, bit=6), Member("DN", ATOM_TYPES["BOOL"], 3, bit=5)]
+    t.size = 12
+    t.bare_name = bool(bare and prj.fw_major >= 32)
+    _assign_ids(prj, rng, t, pb.used, predefined=True)
+    tag = pb.tag(tag_name, t, (), small_instance=True if rng.random() < 0.3 else None)
+    tag.data = bytearray(rng.getrandbits(8) for _ in range(len(tag.data)))
+    return t, tag
+
+
 def add_deep_tag(prj, rng, depth, tag_name, stem="Deep"):
     """a family of `depth` UDTs nested in each other (level k holds one member, or a small array, of level k-1) and ONE tag of the
     outermost type: the driver meets the whole chain unresolved when it uploads that tag.  Nesting depth has no limit in the property."""
